@@ -139,6 +139,17 @@ def vmapSet {β} (ps : List (Val × β)) (k : Val) (v : β) : List (Val × β) :
   if ps.any (fun p => p.1.keyEq k) then ps.map (fun p => if p.1.keyEq k then (p.1, v) else p)
   else ps ++ [(k, v)]
 
+/-- helpers of the devmod modules chunk (an array: start, count, then the module names as text) -/
+def chunkTextEnc : Val → Bytes
+  | .text t => encHead 3 t.length ++ t
+  | _ => []
+def chunkIsAnyText : Val → Bool
+  | .any (.text _) => true
+  | _ => false
+def chunkFromAny : Val → Val
+  | .any (.text t) => .text t
+  | _ => .nilp
+
 /-- Zero value of a type (what a target holds when the decoder leaves it untouched). -/
 def zeroVal : Nat → Schema → Val
   | 0, _ => .nilp
@@ -397,8 +408,8 @@ def decodeS (ok : CertOracle) : Nat → Nat → Schema → Bytes → Option (Val
       | Option.some (_, r) =>
         match decodeS ok f maxDepth (.slice .any) (bs.take (bs.length - r.length)) with
         | Option.some (.list (.any (.int a) :: .any (.int b) :: ms), []) =>
-          if ms.all (fun m => match m with | .any (.text _) => true | _ => false)
-          then Option.some (.strct [.int a, .int b, .list (ms.map fun m => match m with | .any (.text t) => .text t | _ => .nilp)], r)
+          if ms.all chunkIsAnyText
+          then Option.some (.strct [.int a, .int b, .list (ms.map chunkFromAny)], r)
           else Option.none
         | _ => Option.none
       | Option.none => Option.none
@@ -596,8 +607,7 @@ def encodeS : Nat → Schema → Val → Option Bytes
       else Option.some (encHead 6 1 ++ (if u ≥ 0 then encHead 0 u.toNat else encHead 1 (-1 - u).toNat))
     | .chunk, .strct [.int a, .int b, .list ms] =>
       let enc (i : Int) := if i ≥ 0 then encHead 0 i.toNat else encHead 1 (-1 - i).toNat
-      Option.some (encHead 4 (2 + ms.length) ++ enc a ++ enc b ++
-        (ms.map fun m => match m with | .text t => encHead 3 t.length ++ t | _ => []).flatten)
+      Option.some (encHead 4 (2 + ms.length) ++ enc a ++ enc b ++ (ms.map chunkTextEnc).flatten)
     | .coseKey, .map ps => encodeS f (.mapOf .label .any) (.map ps)
     | _, _ => Option.none
 def encodeList : Nat → Schema → List Val → Option Bytes
